@@ -102,6 +102,17 @@ PROPS = {
           'producer shard, producer NumPartition == consumer shards. 12 fixed programs are compiled by every child process and their digests '
           'compared across processes. Non-trivial: the graph has a shuffle edge or a reused Result.',
           nbatch=(4, 16), must_observe=['graphs_compiled', 'tasks_checked', 'cross_process_values_compared']),
+ 'C12': P('exploration',
+          'cases = (executor, base program, history of operations over the growing set of results): scan (1-4 concurrent scanners, optionally '
+          'concurrent with the next operation), derive (a generated Func consuming one or two results through pipelined and redistributing '
+          'operators), discard (optionally concurrent), kill a machine (testsystem). A fixed list runs every redistributing operator over a result '
+          'argument before and after a discard; seeded histories of 2..6 (quick) / 2..10 (thorough) operations follow, on local p=4 and a testsystem '
+          'with 50 ms keepalive. Oracle at the API boundary: every successful scan yields the reference rows of that result; a Func over results '
+          'succeeds with the reference rows of the derived program, also after discards (ancestors of a discarded result count as discarded); a scan '
+          'of a discarded/lost result returns the reference rows or an error; nothing may fail on intact results; every operation returns. '
+          'Non-trivial: a reuse after discard/kill happened, or >=2 concurrent scanners.',
+          nbatch=(16, 16), timeout=(900, 3400),
+          must_observe=['derived_runs_ok', 'recomputations_after_discard_or_loss', 'scans_ok', 'concurrent_scan_groups']),
 }
 
 META = {
@@ -166,4 +177,10 @@ META = {
          'output compared for determinism and checked against structural invariants stated on the slice DAG.',
     note='Uses exec.VerifMakeInvocation/Compile/Encode/VerifDecodeInvocation. Cached shards (dependencies dropped) are covered by C13.',
     technique='determinism (repeat / transport / cross-process) and structural invariant monitoring of compiled graphs'),
+ 'C12': dict(
+    text='Exploration: histories of run/scan/derive/discard/kill are executed against real sessions; each operation is judged at the API '
+         'boundary against the reference rows of the (deterministic) programs involved.',
+    note='Because the value of a result never changes, the per-operation oracle is equivalent to a linearizability check against a constant '
+         'register, so porcupine is not needed here. After a machine kill the documented give-up errors are counted, not flagged.',
+    technique='history-based runtime monitoring at the API boundary with a reference evaluator'),
 }
